@@ -36,6 +36,7 @@ def check(ctx):
     ctx.rule('C01.R5', 'compile_members siblings agree on the extension-marker state machine')
     ctx.rule('C01.R6', 'Encoder.number_of_bits is not zeroed after an append (observed as emptiness by the members encoders)')
     ctx.rule('C01.R7', 'member presence is `name in data`, never the value')
+    ctx.rule('C01.R8', 'an addition encoder is reset (its content discarded) only when just the presence preamble was written')
 
     # ---- R1
     cap = None if ctx.tier == 'thorough' else 256
@@ -260,6 +261,16 @@ def check(ctx):
                               'interprets `number_of_bits > 0` as "this extension addition is present" (a present addition is dropped)' % Model.qual(obs[0][0]),
                               stmt='flush after append')
 
+    # ---- R8
+    for rel in (PER, OER):
+        for f, call, ok, why in siblings.reset_discipline(model, rel):
+            ctx.instance('C01.R8', '%s [%s under %s]' % (Model.qual(f), ast.unparse(call), why[:80]), 'ok' if ok else 'VIOLATION', node=call, file=rel)
+            if not ok:
+                ctx.violation('C01.R8', rel, call, Model.qual(f),
+                              '%s discards the encoded addition without comparing the encoder bit count with the size of the presence preamble (guards: %s): an addition group '
+                              'whose present members all encode to zero bits (FALSE, lower bound, first enumeration item) is dropped and the value does not round-trip'
+                              % (ast.unparse(call), why or 'none'), stmt='reset without length test')
+
     # ---- R7
     encs = siblings.members_encoders(model, ('ber', 'der', 'per', 'uper', 'oer'))
     if len(encs) < 6:
@@ -272,6 +283,11 @@ def check(ctx):
 
 
 MUTANTS = [
+    dict(name='addition group reset on all-zero bits alone', file=PER,
+         old="""        if (encoder.are_all_bits_zero()
+            and (encoder.number_of_bits == len(self.optionals))):
+            encoder.reset()""", new="""        if encoder.are_all_bits_zero():
+            encoder.reset()""", expect='C01.R8'),
     dict(name='per.OctetString.decode loses its align', file=PER, quick=True,
          old="""        if align:
             decoder.align()
